@@ -163,6 +163,17 @@ def check(res, tier, seed):
             monitor_hits += 1
             res.violation("bcast-monitor:" + r["violates"].split(":")[0][:40], "implementation violates C19 on a concrete schedule: " + r["violates"],
                           dict(kind="bcast", progs=r["progs"], schedule=schedule_of(r), trace=r["trace"], panic=r.get("panic")))
+    # real-scheduler stress of windows that have no yield point (search only)
+    srecs, src, sout = C.run_job(binary, wd, "stress", dict(family="bcast-stress", seed=seed, n=(60000 if tier == "quick" else 1500000)), timeout=600)
+    for sr in srecs:
+        res.coverage["stress_iterations"] = sr.get("iterations")
+        res.coverage["stress_outcomes"] = sr.get("kinds")
+        if sr.get("violates"):
+            monitor_hits += 1
+            res.violation("bcast-stress", "implementation violates C19 under the real scheduler: " + sr["violates"], dict(kind="bcast-stress", result=sr))
+    if src != 0:
+        monitor_hits += 1
+        res.violation("bcast-stress-died", "the Broadcaster stress run died: %s" % (sout.strip().splitlines() or ["?"])[-1][:300], dict(output=sout[-3000:]))
     # correspondence with the model (kernel evaluation)
     mism, ncoq = eval_cases(wd, "cases", recs)
     for ci, step in mism:
@@ -174,6 +185,8 @@ def check(res, tier, seed):
                            progs=r["progs"], schedule=schedule_of(r), first_mismatching_step=step,
                            observed=r["trace"][step] if step < len(r["trace"]) else None),
                       no_failing_input=(monitor_hits == 0))
+    from . import locksets
+    locksets.atomicity_obligation(res, monitor_hits)
     if getattr(res, "proof_broken", None):
         why, log = res.proof_broken
         res.violation("proof-broken", "proof obligations of %s no longer check: %s" % (pid, why),
